@@ -331,3 +331,21 @@ def expand_locals(fnode: ast.AST, e: ast.expr | None, depth: int = 3) -> ast.exp
             break
         out = new
     return ast.fix_missing_locations(out)
+
+
+def alpha(fnode, node) -> str:
+    """Text of `node` with every local variable / parameter of the enclosing function replaced by v1, v2, ... in order of
+    first appearance: a key that survives a rename of locals (finding keys must not contain the author's variable names)."""
+    import copy
+
+    local = {a.arg for a in ast.walk(fnode) if isinstance(a, ast.arg)}
+    local |= {n.id for n in ast.walk(fnode) if isinstance(n, ast.Name) and isinstance(n.ctx, (ast.Store, ast.Del))}
+    cp = copy.deepcopy(node)
+    order: dict[str, str] = {}
+    # deterministic order: position in the unparsed text = pre-order of Name nodes by (lineno, col)
+    names = sorted([n for n in ast.walk(cp) if isinstance(n, ast.Name) and n.id in local], key=lambda n: (getattr(n, "lineno", 0), getattr(n, "col_offset", 0)))
+    for n in names:
+        order.setdefault(n.id, f"v{len(order) + 1}")
+    for n in names:
+        n.id = order[n.id]
+    return " ".join(ast.unparse(cp).split())
